@@ -215,17 +215,61 @@ class Prop:
         return []
 
 
+HANG_SIG = 'implementation-does-not-terminate'
+CASE_TIMEOUT = int(os.environ.get('VERIF_CASE_TIMEOUT', '6'))      # wall-clock seconds for one case (cases take milliseconds)
+
+
+class CaseTimeout(BaseException):
+    pass
+
+
+def guarded_run_impl(prop, case, timeout=None):
+    """run one case against the implementation under a watchdog: code under test that spins (or eats memory) without returning
+    must not wedge the check. -> (obs, err, hang)"""
+    import signal
+
+    fired = []
+
+    def on_alarm(signum, frame):
+        # raised inside whatever is spinning; asyncio stores a BaseException raised inside a task instead of propagating it,
+        # so the scenario may well go on and return: `fired` remembers that the watchdog had to break something up
+        fired.append(1)
+        signal.setitimer(signal.ITIMER_REAL, 2)      # and again, should the next thing spin as well
+        raise CaseTimeout()
+    old = signal.signal(signal.SIGALRM, on_alarm)
+    signal.setitimer(signal.ITIMER_REAL, timeout or CASE_TIMEOUT)
+    try:
+        obs = prop.run_impl(case)
+        if fired:
+            return None, None, True
+        return obs, None, False
+    except (CaseTimeout, MemoryError):
+        return None, None, True
+    except Exception as e:  # harness-level failure: infrastructure, not a verdict
+        if fired:
+            return None, None, True
+        return None, 'harness error: %r\n%s' % (e, traceback.format_exc()), False
+    finally:
+        signal.setitimer(signal.ITIMER_REAL, 0)
+        signal.signal(signal.SIGALRM, old)
+
+
 def _worker(args):
     prop, chunk, with_model = args
     results = []
     obs_list = []
-    for case in chunk:
-        try:
-            obs = prop.run_impl(case)
-            err = None
-        except Exception as e:  # harness-level failure: infrastructure, not a verdict
-            obs = None
-            err = 'harness error: %r\n%s' % (e, traceback.format_exc())
+    hung = set()
+    skipped = set()
+    for idx, case in enumerate(chunk):
+        if len(hung) >= 2:
+            # two inputs on which the implementation does not terminate are enough for a verdict: do not spend the run on more
+            skipped.add(idx)
+            obs_list.append((None, 'skipped'))
+            continue
+        obs, err, hang = guarded_run_impl(prop, case, timeout=3 if hung else None)
+        if hang:
+            hung.add(idx)
+            err = 'hang'
         obs_list.append((obs, err))
     answers_all = None
     driver_err = None
@@ -241,6 +285,17 @@ def _worker(args):
             driver_err = repr(e)
     for i, (case, (obs, err)) in enumerate(zip(chunk, obs_list)):
         r = {'case': case, 'obs': obs, 'err': err, 'mismatch': None, 'oracle': [], 'key': None, 'stats': []}
+        if i in skipped:
+            r['err'] = None
+            r['skipped'] = True
+            results.append(r)
+            continue
+        if i in hung:
+            r['err'] = None
+            r['oracle'] = [{'signature': HANG_SIG, 'what': 'the implementation did not return within %d s (or exhausted memory) on this input: processing does not terminate' % CASE_TIMEOUT}]
+            r['key'] = json.dumps(case, sort_keys=True, default=str)
+            results.append(r)
+            continue
         if err is None:
             try:
                 r['oracle'] = prop.oracle(case, obs)
@@ -326,8 +381,11 @@ def main(prop):
         if case is None:
             print('replay names a broken obligation, not an input:', json.dumps(payload.get('broken'), indent=1))
             sys.exit(1)
-        obs = prop.run_impl(case)
-        fails = prop.oracle(case, obs)
+        obs, err, hang = guarded_run_impl(prop, case)
+        if err:
+            print(err)
+            sys.exit(2)
+        fails = [{'signature': HANG_SIG, 'what': 'the implementation did not return within %d s on this input' % CASE_TIMEOUT}] if hang else prop.oracle(case, obs)
         print(json.dumps({'case': case, 'observation': obs, 'oracle': fails}, indent=1, default=str))
         sys.exit(1 if fails else 0)
 
@@ -380,20 +438,25 @@ def main(prop):
         sig = o['signature']
 
         def still(c):
-            return any(x['signature'] == sig for x in prop.oracle(c, prop.run_impl(c)))
+            obs_c, err_c, hang_c = guarded_run_impl(prop, c)
+            if hang_c:
+                return sig == HANG_SIG
+            if err_c is not None:
+                return False
+            return any(x['signature'] == sig for x in prop.oracle(c, obs_c))
         start = r['case']
-        if hasattr(prop, 'explicit'):
+        if hasattr(prop, 'explicit') and sig != HANG_SIG:
             try:
                 cand = prop.explicit(r['case'], r['obs'])
                 if still(cand):
                     start = cand
             except Exception:
                 pass
-        small = shrink(prop, start, still)
-        obs = prop.run_impl(small)
+        small = shrink(prop, start, still, budget=300 if sig != HANG_SIG else 12)
+        obs, _e, _h = guarded_run_impl(prop, small)
         path = write_replay(prop.id, {'property': prop.id, 'kind': 'failing-input', 'signature': sig,
                                       'what': o['what'], 'case': small, 'observation': obs,
-                                      'oracle': prop.oracle(small, obs), 'broken': broken,
+                                      'oracle': prop.oracle(small, obs) if obs is not None else [o], 'broken': broken,
                                       'distinct_signatures': sorted({x['signature'] for _, x in new_fail})})
         cdir = os.path.join(VERIF, 'corpus', prop.id)
         lines.append('VIOLATION property=%s replay=%s' % (prop.id, os.path.relpath(path, VERIF)))
